@@ -736,6 +736,63 @@ impl<'a> VisitMut for Rules<'a> {
                 }
             }
         }
+        if self.ctx.on("R67") {
+            // R67: `let X: IndexSet<String> = A.iter().filter(|p| C).map(|q| E).collect();` -> insertion loop into a new set: for every element in
+            // order, if C holds for (a reference to) it, E is inserted (std definitions of filter / map; FromIterator for IndexSet inserts in order)
+            let mut out: Vec<syn::Stmt> = Vec::with_capacity(b.stmts.len());
+            for st in b.stmts.drain(..) {
+                let mut rep: Option<Vec<syn::Stmt>> = None;
+                if let syn::Stmt::Local(l) = &st {
+                    if let (syn::Pat::Type(pt), Some(init)) = (&l.pat, &l.init) {
+                        let tytxt = norm(&pt.ty.to_token_stream().to_string());
+                        if tytxt == "IndexSet<String>" && init.diverge.is_none() {
+                            if let syn::Expr::MethodCall(col) = &*init.expr {
+                                if col.method == "collect" && col.args.is_empty() {
+                                    if let syn::Expr::MethodCall(mp) = &*col.receiver {
+                                        if mp.method == "map" && mp.args.len() == 1 {
+                                            if let (syn::Expr::Closure(mc), syn::Expr::MethodCall(fl)) = (&mp.args[0], &*mp.receiver) {
+                                                if fl.method == "filter" && fl.args.len() == 1 && mc.inputs.len() == 1 {
+                                                    if let (syn::Expr::Closure(fc), syn::Expr::MethodCall(it)) = (&fl.args[0], &*fl.receiver) {
+                                                        if it.method == "iter" && it.args.is_empty() && fc.inputs.len() == 1 {
+                                                            let a = &it.receiver;
+                                                            let fpat = match &fc.inputs[0] { syn::Pat::Type(p) => (*p.pat).clone(), p => p.clone() };
+                                                            let mpat = match &mc.inputs[0] { syn::Pat::Type(p) => (*p.pat).clone(), p => p.clone() };
+                                                            let (fbody, mbody) = (&fc.body, &mc.body);
+                                                            let xpat = &pt.pat;
+                                                            let xty = &pt.ty;
+                                                            let k = self.ctx.fresh();
+                                                            let nn = syn::Ident::new(&format!("vx_n{}", k), proc_macro2::Span::call_site());
+                                                            let ii = syn::Ident::new(&format!("vx_i{}", k), proc_macro2::Span::call_site());
+                                                            let ss = syn::Ident::new(&format!("vx_set{}", k), proc_macro2::Span::call_site());
+                                                            let kp = syn::Ident::new(&format!("vx_keep{}", k), proc_macro2::Span::call_site());
+                                                            rep = Some(vec![
+                                                                syn::parse_quote!(let mut #ss: #xty = IndexSet::new();),
+                                                                syn::parse_quote!(let #nn = #a.len();),
+                                                                syn::Stmt::Expr(syn::parse_quote!(for #ii in 0..#nn {
+                                                                    let #kp = { let #fpat = &&#a[#ii]; #fbody };
+                                                                    if #kp {
+                                                                        let #mpat = &#a[#ii];
+                                                                        #ss.insert(#mbody);
+                                                                    }
+                                                                }), None),
+                                                                syn::parse_quote!(let #xpat: #xty = #ss;),
+                                                            ]);
+                                                            self.ctx.used("R67");
+                                                        }
+                                                    }
+                                                }
+                                            }
+                                        }
+                                    }
+                                }
+                            }
+                        }
+                    }
+                }
+                match rep { Some(v) => out.extend(v), None => out.push(st) }
+            }
+            b.stmts = out;
+        }
         if self.ctx.on("R63") {
             // R63: `let X: IndexMap<String, T> = A.iter().enumerate().map(|(i, p)| (K, V)).collect();` -> insertion loop into a new map, in order
             // (FromIterator for IndexMap: `insert` per item, a repeated key keeps its first position and takes the last value)
